@@ -11,7 +11,9 @@ RULE = (
     "x relink on/off x LocalHashFileDB/HashFileDB x with/without State; every case is followed by a second "
     "call (plain or with the same flags) on the result; plus two-call histories in one process on one workspace "
     "path (forced checkout of a nested target, the user deletes a sub-directory tree / everything / one file, forced "
-    "checkout of the same or another nested target through the same or a fresh odb object), each call judged by "
+    "checkout of the same or another nested target through the same or a fresh odb object; or an earlier checkout "
+    "while target objects were not yet cached, then fetched; or an earlier checkout under another configured link "
+    "type - all ordered pairs - followed by a relinking checkout), each call judged by "
     "the convergence oracle; plus the unforced / missing-object streams of C05 for "
     "cache immutability and the link record.  Non-trivial: the first call changed the workspace or raised."
 )
@@ -25,7 +27,19 @@ ASSUMPTIONS = [
 
 # design finding 7.7 (repaired by a8647e5): a symlink whose cache object has another hard link must be
 # relinked under type hardlink; and the plain 3x3 diagonal
+_NEST = {"a": "A", "sub/c": "B", "sub/deep/d": "A"}
 CORPUS = [
+    # missing -> fetched -> forced checkout -> the next checkout is a no-op (same / re-created odb object)
+    *[{"stream": "rehistory", "cls": cls, "types": [ty], "state": st, "relink": False, "second": "plain", "force": True,
+       "prompt": "none", "prior": None, "target": dict(_NEST), "cache": ["A", "B"],
+       "prelude": {"missing": ["B"], "same_odb": same}}
+      for cls, ty, st, same in (("local", "copy", False, True), ("base", "hardlink", True, False), ("local", "symlink", True, True))],
+    # link type reconfigured between two checkouts on the same cache and workspace directories: all ordered pairs
+    *[{"stream": "rehistory", "cls": cls, "types": [t2], "state": st, "relink": True, "second": "same", "force": True,
+       "prompt": "none", "prior": None, "target": dict(_NEST), "cache": ["A", "B"], "prelude": {"types": [t1]}}
+      for (t1, t2, cls, st) in (("copy", "symlink", "local", False), ("copy", "hardlink", "base", True),
+                                ("symlink", "copy", "local", True), ("symlink", "hardlink", "local", False),
+                                ("hardlink", "copy", "base", False), ("hardlink", "symlink", "local", True))],
     # one process, one workspace path: nested target, sub-directories removed by the user, forced checkout again
     {"stream": "rehistory", "cls": "local", "types": ["hardlink"], "state": False, "relink": False, "second": "plain",
      "force": True, "prompt": "none", "prior": None, "target": {"a": "A", "sub/c": "B", "sub/deep/d": "C"},
